@@ -111,7 +111,9 @@ def run_worker(binary, args, timeout, cwd=None, env=None):
     herr = None
     for line in p.stdout.splitlines():
         if line.startswith("RESULT "):
-            results.append(json.loads(line[7:]))
+            rec = json.loads(line[7:])
+            rec["_args"] = list(args)
+            results.append(rec)
         elif line.startswith("HARNESS-ERROR"):
             herr = line
     if herr or p.returncode != 0 or not results:
@@ -188,6 +190,7 @@ def finish(pid, tier, level, results, t0, assumptions, rule, extra_cov=None, see
         for v in r.get("violations") or []:
             v = dict(v)
             v["scenario"] = r.get("name")
+            v["_args"] = r.get("_args")
             viols.append(v)
     if samples_extra:
         cov["samples"].extend(samples_extra)
@@ -221,7 +224,7 @@ def finish(pid, tier, level, results, t0, assumptions, rule, extra_cov=None, see
         h = hashlib.sha1((pid + v["key"]).encode()).hexdigest()[:10]
         path = os.path.join(OUT, "replays", "%s-%s.json" % (pid, h))
         with open(path, "w") as f:
-            json.dump({"property": pid, "key": v["key"], "what": v["what"], "scenario": v.get("scenario"), "replay": v.get("replay")}, f, indent=1)
+            json.dump({"property": pid, "tier": tier, "key": v["key"], "what": v["what"], "scenario": v.get("scenario"), "worker_args": v.get("_args"), "replay": v.get("replay")}, f, indent=1)
         print("VIOLATION property=%s replay=%s" % (pid, path))
         print("  key=%s: %s" % (v["key"], v["what"][:600]))
         vlines.append({"key": v["key"], "what": v["what"][:600], "replay": path})
@@ -300,3 +303,29 @@ def race_pass(cid, injects, pkg, scenarios, budget=60, keyfn=None, rewrites=()):
                                       "replay": {"scenario": sc, "kind": "race", "report": text[:6000]}})
         out.append(rec)
     return out
+
+
+def replay_enum(pid, binary, path, env=None, extra=()):
+    """Replay for enumeration harnesses: the worker re-runs its enumeration unsharded in the recorded tier and reports
+    only the violation whose record equals the recorded one (venum does the filtering)."""
+    d = json.load(open(path))
+    args = ["-replay", path, "-tier", d.get("tier", "quick"), "-budget", "3000"] + list(extra)
+    wa = d.get("worker_args") or []
+    i = 0
+    while i < len(wa):  # the recorded worker arguments, minus sharding / budget / tier
+        if wa[i] in ("-shard", "-shards", "-budget", "-tier", "-replay"):
+            i += 2
+            continue
+        args.append(wa[i])
+        i += 1
+    out = run_worker(binary, args, 3600, env=env)
+    if "error" in out:
+        raise HarnessError(out["error"])
+    vs = [v for r in out["results"] for v in (r.get("violations") or [])]
+    for v in vs:
+        print("  key=%s: %s" % (v["key"], v["what"][:400]))
+    if vs:
+        print("VIOLATION property=%s replay=%s" % (pid, path))
+        sys.exit(1)
+    print("replay: no violation")
+    sys.exit(0)
